@@ -112,8 +112,9 @@ impl<'a, P: ?Sized + PathImpl> PathMutImpl<'a, P> {
 		} else {
 			let bytes = self.as_bytes();
 			let mut start_offset = 0usize;
-			if (self.follows_authority || bytes.len() > 3) && bytes.ends_with(b"/./") {
-				// we can remove the `./` here.
+			if self.follows_authority && bytes == b"/./" {
+				// The path is an empty segment behind its `.` shield: we can
+				// remove the `./` here (the authority disambiguates `//`).
 				start_offset = 2;
 			};
 
